@@ -97,7 +97,7 @@ func checkC13(c *Ctx) {
 					if b.Sharded && ev.Kind == pw.EvMapInsert && isShardData(ev) {
 						v = ev.Value
 					}
-					if !b.Sharded && syncMapOp(ev) == "Store" {
+					if !b.Sharded && isSyncStore(p, ev) {
 						v = ev.Args[1]
 					}
 					if v == nil {
@@ -189,6 +189,11 @@ func checkC13(c *Ctx) {
 		// R13.4 -------------------------------------------------------------------------------
 		c.withAlias(map[string]string{"R07.1": "R13.4"}, func() { c.c13RestoreIndex(b) })
 	}
+	c.c13ShardMaps()
+	// what Dump walks after an ExpireAll are the replacement entries: they keep key and value
+	for _, b := range backends {
+		c.replacedEntryKeeps(b, "R13.6", "K", "V")
+	}
 }
 
 func typeName(t types.Type) string {
@@ -211,6 +216,111 @@ func (c *Ctx) c13RestoreIndex(b BK) {
 		}
 	}
 	r.Obls = append(save, keep...)
+}
+
+// c13ShardMaps: Restore (like Write) inserts into a shard's map without a nil check, so the map of a shard is only ever assigned a
+// freshly made map — never nil or a map shared with another owner — by whoever assigns it (constructor, DeleteAll).
+func (c *Ctx) c13ShardMaps() {
+	r := c.R
+	info := c.Pkg.TypesInfo
+	n, bad := 0, false
+	var notFresh []string
+	c.eachFuncDecl(func(fd *ast.FuncDecl, fn *types.Func) {
+		encl := strings.TrimPrefix(pw.FuncName(fn), "cache.")
+		ast.Inspect(fd.Body, func(nd ast.Node) bool {
+			as, ok := nd.(*ast.AssignStmt)
+			if !ok || len(as.Lhs) != len(as.Rhs) {
+				return true
+			}
+			for i, l := range as.Lhs {
+				sel, ok := ast.Unparen(l).(*ast.SelectorExpr)
+				if !ok {
+					continue
+				}
+				s := info.Selections[sel]
+				if s == nil || s.Kind() != types.FieldVal || s.Obj().Name() != "data" {
+					continue
+				}
+				if _, isMap := s.Obj().Type().Underlying().(*types.Map); !isMap {
+					continue
+				}
+				n++
+				fresh := false
+				switch rhs := ast.Unparen(as.Rhs[i]).(type) {
+				case *ast.CallExpr:
+					if id, ok := rhs.Fun.(*ast.Ident); ok && id.Name == "make" {
+						fresh = true
+					}
+				case *ast.CompositeLit:
+					fresh = true
+				}
+				if !fresh {
+					notFresh = append(notFresh, encl+" at "+c.Pos(as.Pos()))
+				}
+			}
+			return true
+		})
+	})
+	if len(notFresh) > 0 {
+		// lazily allocated shard maps are fine when every inserting function checks for nil first
+		c.eachFuncDecl(func(fd *ast.FuncDecl, fn *types.Func) {
+			encl := strings.TrimPrefix(pw.FuncName(fn), "cache.")
+			isData := func(e ast.Expr) bool {
+				sel, ok := ast.Unparen(e).(*ast.SelectorExpr)
+				if !ok {
+					return false
+				}
+				s := info.Selections[sel]
+				if s == nil || s.Kind() != types.FieldVal || s.Obj().Name() != "data" {
+					return false
+				}
+				_, isMap := s.Obj().Type().Underlying().(*types.Map)
+				return isMap
+			}
+			var insert ast.Node
+			nilCheck := false
+			// inserts inside a range over the same map only run when it is non-empty, hence non-nil
+			var ranges []*ast.RangeStmt
+			ast.Inspect(fd.Body, func(nd ast.Node) bool {
+				if rs, ok := nd.(*ast.RangeStmt); ok && isData(rs.X) {
+					ranges = append(ranges, rs)
+				}
+				return true
+			})
+			ast.Inspect(fd.Body, func(nd ast.Node) bool {
+				switch x := nd.(type) {
+				case *ast.AssignStmt:
+					for _, l := range x.Lhs {
+						if ix, ok := ast.Unparen(l).(*ast.IndexExpr); ok && isData(ix.X) {
+							inRange := false
+							for _, rs := range ranges {
+								if x.Pos() >= rs.Body.Pos() && x.End() <= rs.Body.End() {
+									inRange = true
+								}
+							}
+							if !inRange {
+								insert = x
+							}
+						}
+					}
+				case *ast.BinaryExpr:
+					if id, ok := ast.Unparen(x.Y).(*ast.Ident); ok && id.Name == "nil" && isData(x.X) {
+						nilCheck = true
+					}
+				}
+				return true
+			})
+			if insert != nil && !nilCheck {
+				bad = true
+				r.Bad("R13.4", encl, "insert-into-possibly-nil-map", c.Pos(insert.Pos()), "a shard's map is assigned something other than a freshly made map ("+strings.Join(notFresh, "; ")+") while this function inserts into it without a nil check", nil)
+			}
+		})
+	}
+	if n == 0 {
+		r.Unknown("R13.4", "package:shard-maps", "no assignment to a shard map found")
+	} else if !bad {
+		r.OK("R13.4", "package:shard-maps", fmt.Sprintf("%d assignments to shard maps, %d not fresh; every inserting function is safe", n, len(notFresh)))
+	}
 }
 
 func (c *Ctx) c13Counts(b BK, decodeTarget types.Object) {
@@ -416,7 +526,7 @@ func (c *Ctx) c13Counts(b BK, decodeTarget types.Object) {
 			}
 			stores, incs := 0, 0
 			for _, ev := range g.events {
-				if b.Sharded && ev.Kind == pw.EvMapInsert && isShardData(ev) || !b.Sharded && syncMapOp(ev) == "Store" {
+				if b.Sharded && ev.Kind == pw.EvMapInsert && isShardData(ev) || !b.Sharded && isSyncStore(p, ev) {
 					stores++
 				}
 				if ev.Kind == pw.EvAssign && ev.Value != nil && ev.Value.Kind == pw.KArith && ev.Value.Op == token.ADD {
@@ -424,6 +534,12 @@ func (c *Ctx) c13Counts(b BK, decodeTarget types.Object) {
 				}
 			}
 			n++
+			for _, ev := range g.events {
+				if ev.Kind == pw.EvCall && strings.HasSuffix(ev.Role, "gob.Decoder.Decode") && len(ev.Results) == 1 && nilTri(p, ev.Results[0]) == triTrue && stores == 0 {
+					r.Bad("R13.3", rname, "decoded-record-dropped", c.Pos(g.begin.Pos), "a record that was decoded successfully is not stored: the restored cache misses entries of the dump", shortTrace(p))
+					bad = true
+				}
+			}
 			if stores != incs || stores > 1 {
 				r.Bad("R13.3", rname, "restore-count", c.Pos(g.begin.Pos), fmt.Sprintf("iteration stores %d records and increments the counter %d times", stores, incs), shortTrace(p))
 				bad = true
